@@ -50,7 +50,7 @@ def catalogue(K, thorough=False):
             S.GRP_BLOCKED(K), S.GRPBATCH(K), S.EMPTYBATCH(K), S.TWOSRC(K), S.GATE_NONE(K), S.DELAY01_LONG(0),
             S.MAINT2_SCRIPT(K), S.GRPIN(K), S.RES3(K), S.BLOCKED_OUT_SCRIPT(K), S.BUFGATE(K),
             S.BATCH_DIRECT(K, pattern=(2, 2, None), size=3, cap=3, sink_cycle=2),
-            S.BATCH(K, size=2, cap=6, sink_cycle=2), S.BLOCK_SCRIPT(K), S.BUDGET(K, budget=0), S.BATCHSLOW(K), S.RES3L(K), S.LOOP(K), S.GRPPASS(K)]
+            S.BATCH(K, size=2, cap=6, sink_cycle=2), S.BLOCK_SCRIPT(K), S.BUDGET(K, budget=0), S.BATCHSLOW(K), S.RES3L(K), S.LOOP(K), S.GRPPASS(K), S.BUF2_SCRIPT(K), S.EMPTYBATCH_SCRIPT(K)]
     return rows
 
 
@@ -167,7 +167,7 @@ def buffer_scenarios(K, thorough):
             S.FANOUT_DELAY(K), S.BATCH(K, size=2, cap=3, sink_cycle=2), S.BATCH_DIRECT(K, cap=3, sink_cycle=1),
             S.TWOSRC(K), S.TWOSRC(K, eps=1e-9, delay=1, horizon=4), S.DELAY01_LONG(0), S.EMPTYBATCH(K),
             S.BUFBATCH(K, pattern=(3, 3, None), cap=5, size=None, sink_cycle=2), S.BUFGATE(K), S.EMPTYBATCH_SCRIPT(K),
-            S.BATCH(K, size=2, cap=6, sink_cycle=2), S.LOOP(K), S.LOOP(K, delay=0)]
+            S.BATCH(K, size=2, cap=6, sink_cycle=2), S.LOOP(K), S.LOOP(K, delay=0), S.BUF2_SCRIPT(K)]
     return rows
 
 
